@@ -1,6 +1,7 @@
 """C15 — asserted data is stored, returned and validated faithfully."""
 import random
 
+import engine
 import fol
 import streams
 from common import sub_seed, size
@@ -59,6 +60,18 @@ def judge(j):
 
 
 def run(rep, tier, seed):
+    # known finding D20 (data on a PARTIALLY quantified formula): replay the witness; listed only while it reproduces.
+    # The store programs below assert data on every other kind of formula, fully quantified ones included.
+    w = engine.run_cases("fol", "run_partial_quant_data", [{}], jobs=1)[0]
+    rep.extra["known_finding_D20_witness"] = w
+    if "crash" not in w:
+        lost = w["after_add"] == ["1/4", "3/4"] and w["after_reset"] != ["1/4", "3/4"]
+        refused = isinstance(w["add_after_inference"], str)
+        if lost or refused:
+            rep.enable_known("D20")
+            rep.violation("partial-quantifier-data", {"witness": w, "lost_after_reset": lost, "refused_after_inference": refused}, {"witness": w})
+        if w["after_add"] != ["1/4", "3/4"]:
+            rep.violation("store-add", {"problem": "get_data after add_data on a partially quantified formula", "witness": w}, {"witness": w})
     n = size(tier, 150, 3000)
     progs = [fol.gen_store_program(random.Random(sub_seed(seed, "store", k))) for k in range(n)]
     recs, first_dis = streams.run_fol_stream(rep, "store", progs, None, fn="run_store_program")
